@@ -201,7 +201,7 @@ int main(int argc, char** argv)
     vlog::start_watchdog(170000);
     vctl::g_seed = seed;
     if (perturb)
-        vctl::install(seed, 15, 100, 150, "sl.got,sl.active,sl.store,tq.,sts.,agent.yield,gac.,tm.");
+        vctl::install(seed, 15, 100, 150, "sl.got,sl.active,sl.store,tq.,sts.,agent.yield,gac.,tm.,sb.suspend.,pool.pu.");
     pika::verif::exchange_hook(&monitor_hook);
     vlog::rng R(seed * 16807 + 3);
 
@@ -270,14 +270,23 @@ int main(int argc, char** argv)
         }
         if (do_suspend)
         {
-            ev("suspend_call").done();
-            guarded("suspend", [] { pika::suspend(); });
-            ev("suspend_ret").done();
-            for (int r : while_suspended) submit(PP, r, 0, 2);
-            std::this_thread::sleep_for(std::chrono::milliseconds(2));
-            ev("resume_call").done();
-            guarded("resume", [] { pika::resume(); });
-            ev("resume_ret").done();
+            // some back-to-back suspend/resume cycles first (resume racing with the workers that
+            // are still falling asleep), then one with work submitted while suspended
+            int cycles = R.chance(1, 2) ? (int) R.below(12) : 0;
+            for (int c = 0; c <= cycles; ++c)
+            {
+                ev("suspend_call").done();
+                guarded("suspend", [] { pika::suspend(); });
+                ev("suspend_ret").done();
+                if (c == cycles)
+                {
+                    for (int r : while_suspended) submit(PP, r, 0, 2);
+                    if (R.chance(2, 3)) std::this_thread::sleep_for(std::chrono::milliseconds(2));
+                }
+                ev("resume_call").done();
+                guarded("resume", [] { pika::resume(); });
+                ev("resume_ret").done();
+            }
         }
         bool stop_first = !finalize_in_main && R.chance(1, 3);
         int res = -1;
